@@ -192,7 +192,7 @@ def plan(tier, seed):
                  ('big-rel', 'release', 'cache_trace', ['gen', str(seed + 2), '16', '500', 'big']),
                  ('forget-rel', 'release', 'cache_trace', ['gen', str(seed + 3), '150', '40', 'forget']),
                  ('churn-rel', 'release', 'cache_trace', ['gen', str(seed + 4), '30', '600', 'churn']),
-                 ('clog-rel', 'release', 'cache_trace', ['gen', '0', '1400', '4', 'clog']),
+                 ('clog-rel', 'release', 'cache_trace', ['gen', '0', '700', '4', 'clog']),
                  ('exh2-dbg', 'debug', 'cache_trace', ['exhaust', '2', '0', '1']),
                  ('panic-dbg', 'debug', 'panic_trace', [str(seed), '10', '6', '16']),
                  ('panic-rel', 'release', 'panic_trace', [str(seed + 1), '14', '9', '16'])]
@@ -257,7 +257,10 @@ def parse_model_output(path):
 def corr_key(tier, seed):
     srcs = files_under(os.path.join(REPO, 'src'), ('.rs',)) + [os.path.join(REPO, 'Cargo.toml')]
     srcs += files_under(os.path.join(HARNESS, 'src'), ('.rs',)) + [os.path.join(HARNESS, 'Cargo.toml')]
-    srcs += [os.path.join(ROOT, 'ocaml', 'driver.ml')] + files_under(os.path.join(ROOT, 'coq'), ('.v',))
+    # only what the extracted model is made of (Gen/ holds tables regenerated from the source by the C18/C19 engines, M/ the
+    # size-estimation layer: neither takes part in the correspondence run)
+    srcs += [os.path.join(ROOT, 'ocaml', 'driver.ml'), os.path.join(ROOT, 'coq', 'Base.v'), os.path.join(ROOT, 'coq', 'Extract.v')]
+    for d in ('A', 'B', 'T'): srcs += files_under(os.path.join(ROOT, 'coq', d), ('.v',))
     srcs += glob.glob(os.path.join(ROOT, 'corpus', '*.trace')) + [os.path.join(ROOT, 'tools', 'check.py')]
     return '%s-%s-%s' % (tier, seed, sha_files(srcs))
 
